@@ -88,14 +88,18 @@ def main():
     for w in late:
         w.terminate(timeout=1)
     # L3: autoclose leaves nothing alive, also when the block raises
+    import replay_targets as T
     try:
         with autoclose_active_children():
             p2 = PersistentThreadWorker(fn)
+            busy = ThreadWorker(T.cooperative_loop)          # still working when the block is left: must be terminated
             raise KeyError('boom')
     except KeyError:
         pass
-    time.sleep(0.3)
-    obs['alive_after_autoclose'] = [repr(w) for w in (live, p2) if w.is_alive()]
+    time.sleep(0.6)
+    obs['alive_after_autoclose'] = [repr(w) for w in (live, p2, busy) if w.is_alive()]
+    if busy.is_alive():
+        busy.terminate(timeout=1)
     if obs['alive_after_autoclose']:
         viol.append('workers alive after autoclose block: ' + ', '.join(obs['alive_after_autoclose']))
     print(json.dumps({'violates': bool(viol), 'observed': obs, 'violations': viol, 'scenario': sc}))
